@@ -389,7 +389,27 @@ func (w *World) DrawAction(rt *rapid.T, p *Profile) (Action, string) {
 			}
 			cands := nodes
 			if p.OwnNodesOnly {
-				cands = w.GroupNodeNames(g)
+				// bind only to nodes of the group the pod will be attributed to
+				tg := g
+				if ps.Via == "none" {
+					tg = -1
+					for gi := range w.Cfg.Groups {
+						if w.Cfg.Groups[gi].Opts.Name == controller.DefaultNodeGroup {
+							tg = gi
+						}
+					}
+				} else if w.Cfg.Groups[g].Opts.Name == controller.DefaultNodeGroup {
+					tg = -1 // a selector/affinity pod never belongs to the default group
+					for gi := range w.Cfg.Groups {
+						if gi != g && w.Cfg.Groups[gi].Opts.LabelKey == w.Cfg.Groups[g].Opts.LabelKey && w.Cfg.Groups[gi].Opts.LabelValue == w.Cfg.Groups[g].Opts.LabelValue {
+							tg = gi
+						}
+					}
+				}
+				cands = nil
+				if tg >= 0 {
+					cands = w.GroupNodeNames(tg)
+				}
 			}
 			if len(cands) > 0 && rapid.Bool().Draw(rt, "bound") {
 				ps.Node = rapid.SampledFrom(cands).Draw(rt, "podNode")
